@@ -15,6 +15,8 @@ or after the colliding construct.
 
 from __future__ import annotations
 
+import itertools
+
 import copy
 
 from .. import build, oracle, pkgread, refsem, spec
@@ -239,6 +241,71 @@ def upcase(design):
     return d
 
 
+_ib = itertools.count()
+
+
+def instance_bundle_probes(rec):
+    """Instance bundles over designer-defined Bundles whose member names are awkward (`x` next to `x_`: the suffix the elaborator
+    appends to dodge a clash), next to designer objects named like the replacement instances: every member gets its own instance,
+    wired to its own member signal, and the designer's objects survive."""
+    import hdl21 as h
+
+    for members in (("x", "x_"), ("x_", "x"), ("x", "x_", "x__"), ("a", "a_b"), ("p", "n"), ("n_", "n")):
+        for collider in (None, f"q_{members[0]}", f"q_{members[0]}_", f"q_{members[-1]}", f"q_{members[-1]}_"):
+            for ckind in (("none",) if collider is None else ("inst", "sig")):
+                for first in ((True,) if collider is None else (True, False)):
+                    n = next(_ib)
+                    rec.count("probe.instance-bundles")
+                    case = {"kind": "probe", "what": "instance-bundle", "members": list(members), "collider": collider, "collider_kind": ckind, "declared_first": first}
+                    label = f"instance bundle over members {members}, designer {ckind} named {collider!r}"
+                    rec.case(key=jhash(case), nontrivial=True, sample=case if n % 40 == 0 else None)
+                    passmon._state["case"] = case
+                    passmon.set_label(label)
+                    try:
+                        B = h.Bundle(name=f"IbB{n}")
+                        for m in members:
+                            B.add(h.Signal(), name=m)
+                        IB = h.InstanceBundleType(name=f"IbT{n}", bundle=B)
+                        leaf = build.leaf_call("E2", 50)  # ports x (2 bits), y (1 bit)
+                        top = h.Module(name=f"IbTop{n}")
+
+                        def add_collider():
+                            if ckind == "inst":
+                                cx, cy = top.add(h.Signal(width=2), name="cx"), top.add(h.Signal(), name="cy")
+                                top.add(h.Instance(of=build.leaf_call("E2", 51))(x=cx, y=cy), name=collider)
+                            elif ckind == "sig":
+                                sg = top.add(h.Signal(width=2), name=collider)
+                                top.add(h.Instance(of=build.leaf_call("E2", 52))(x=sg, y=top.add(h.Signal(), name="cy")), name="cobs")
+
+                        if first:
+                            add_collider()
+                        top.add(B(), name="b")
+                        top.add(h.Signal(width=2), name="shared")
+                        top.add(IB(leaf)(x=top.shared, y=top.b), name="q")
+                        if not first:
+                            add_collider()
+                        pkg = h.to_proto(top)
+                    except Exception as e:
+                        rec.count("outcome.raised")
+                        rec.hist("raise_signatures", oracle.exc_sig(e)[:80])
+                        continue
+                    finally:
+                        passmon._state["case"] = None
+                    insts = list(pkg.modules[-1].instances)
+                    names = [i.name for i in insts]
+                    tied = {}
+                    for i in insts:
+                        for c in i.connections:
+                            if c.portname == "y" and c.target.WhichOneof("stype") == "sig" and c.target.sig.startswith("b_"):
+                                tied.setdefault(c.target.sig, []).append(i.name)
+                    want = {f"b_{m}" for m in members}
+                    extra = 0 if ckind == "none" else 1
+                    if len(set(names)) != len(names) or len(insts) != len(members) + extra or set(tied) != want or any(len(v) != 1 for v in tied.values()):
+                        rec.violation("collision-changes-circuit", f"[{label}] the package holds instances {names}; member signals are tied to {tied} "
+                                                                   f"(one replacement instance per member {sorted(want)} expected, and the designer's own objects)", case=case,
+                                      collider=ckind, target="instance-bundle member")
+
+
 def run(ctx, rec):
     passmon.attach(rec)
     rng = ctx.rng("c05")
@@ -284,6 +351,8 @@ def run(ctx, rec):
             case = {"kind": "variant", "label": label, "module": mname, "name": N, "collider": kind, "declared_first": first,
                     "why": why, "design": v, "flags": {"collider": kind, "target": why.split(" of ")[0]}}
             judge(rec, f"{label} / {mname}: designer {kind} named '{N}' ({why})", v, real, case)
+    if ctx.shard == 0:
+        instance_bundle_probes(rec)
     if not ctx.quick and ctx.shard == 0:
         from .. import suite
 
@@ -297,4 +366,7 @@ def shards(ctx):
 
 def replay(ctx, rec, case):
     passmon.attach(rec)
+    if case.get("kind") == "probe":
+        instance_bundle_probes(rec)
+        return
     judge(rec, case.get("label", "replay"), case["design"], True, case)
